@@ -17,16 +17,17 @@ import (
 func init() { register("C04", runC04) }
 
 type c04env struct {
-	members  []base.LocalNode // ids 1..n
-	wrongkey []base.LocalNode // id 100+i: the address of member i under another key
-	outsider []base.LocalNode // ids 8, 9
-	suf      base.Suffrage
-	point    base.Point
-	prev     util.Hash
-	props    map[string]util.Hash
-	id       map[string]int // address -> member id
-	known    bool
-	mu       sync.Mutex
+	members   []base.LocalNode // ids 1..n
+	wrongkey  []base.LocalNode // id 100+i: the address of member i under another key
+	outsider  []base.LocalNode // ids 8, 9
+	suf       base.Suffrage
+	point     base.Point
+	prev      util.Hash
+	props     map[string]util.Hash
+	id        map[string]int // address -> member id
+	known     bool
+	mu        sync.Mutex
+	emptyFact *isaac.EmptyProposalINITBallotFact
 }
 
 func c04newEnv(n int) (*c04env, error) {
@@ -167,6 +168,14 @@ func (e *c04env) oracle(c *Ctx, vp base.Voteproof, what string, input map[string
 		cls := "C04:emitted-voteproof-fails-validation"
 		if w, ok := vp.(base.HasExpels); ok && len(w.Expels()) > 0 {
 			cls = "C04:expel-recount-mismatch"
+		} else if vp.Result() == base.VoteResultDraw && vp.Majority() == nil {
+			// the recount's majority is an empty-proposal fact (SetMajority does not set it)
+			set, m := base.CountBallotSignFacts(vp.SignFacts())
+			if res, key := vp.Threshold().VoteResult(uint(e.suf.Len()), set); res == base.VoteResultMajority {
+				if _, ok := m[key].(isaac.EmptyProposalINITBallotFact); ok {
+					cls = "C04:empty-proposal-majority-recounts-as-majority"
+				}
+			}
 		}
 		c.Violation(cls, fmt.Sprintf("%s: %s fails IsValidVoteproofWithSuffrage: %s", what, e.describe(vp), c16short(err)), input)
 	}
@@ -186,7 +195,19 @@ func (e *c04env) newBox(th base.Threshold) *isaacstates.Ballotbox {
 
 func (e *c04env) ballot(id int, fact string, expelIDs []int) base.Ballot {
 	ops, efacts := e.expels(expelIDs)
-	f := isaac.NewINITBallotFact(e.point, e.prev, e.proposal(fact), efacts)
+	var f base.INITBallotFact = isaac.NewINITBallotFact(e.point, e.prev, e.proposal(fact), efacts)
+	if fact == "E" && len(expelIDs) == 0 {
+		// the fact a node votes when it has no proposal to offer.  Every node makes its own (the fact carries a random
+		// string), so honest nodes never agree on one; "E" is ONE such fact that several nodes sign (the only node of a
+		// one-node suffrage, or nodes that sign a fact they received)
+		e.mu.Lock()
+		if e.emptyFact == nil {
+			x := isaac.NewEmptyProposalINITBallotFact(e.point, e.prev, e.proposal(fact))
+			e.emptyFact = &x
+		}
+		f = *e.emptyFact
+		e.mu.Unlock()
+	}
 	sf := isaac.NewINITBallotSignFact(f)
 	ln := e.node(id)
 	_ = sf.NodeSign(ln.Privatekey(), hNetworkID, ln.Address())
@@ -229,12 +250,36 @@ func runC04(c *Ctx) error {
 		}
 		c.Eval(1)
 	}
+	// the recorded witness of an empty-proposal majority, replayed on every run
+	{
+		e, err := c04newEnv(3)
+		if err != nil {
+			return err
+		}
+		box := e.newBox(base.Threshold(67))
+		toks := []string{"v:1:E", "v:2:E", "v:3:E"}
+		for id := 1; id <= 3; id++ {
+			_, _ = box.Vote(e.ballot(id, "E", nil))
+		}
+		box.Count()
+		var total []string
+		for _, vp := range c04drain(box, 3*time.Millisecond) {
+			total = append(total, e.describe(vp))
+			e.oracle(c, vp, "script "+strings.Join(toks, " ")+" c", map[string]interface{}{"suffrage": 3, "t10": 670, "script": toks})
+		}
+		res := "-"
+		if len(total) > 0 {
+			res = strings.Join(total, "+")
+		}
+		c.Case("box 3 670 1 ; "+strings.Join(toks, " ")+" c", res)
+	}
 	for i := 0; i < n; i++ {
 		size := 1 + c.Intn(7)
 		e, err := c04newEnv(size)
 		if err != nil {
 			return err
 		}
+		withEmpty := c.Chance(1, 5) // some nodes have no proposal to offer and vote the empty-proposal fact
 		t10 := []int{670, 670, 670, 600, 1000, 510}[c.Intn(6)]
 		th := base.Threshold(float64(t10) / 10)
 		e.known = !c.Chance(1, 5)
@@ -270,6 +315,9 @@ func runC04(c *Ctx) error {
 					id = 8 + c.Intn(2)
 				}
 				fact := []string{"A", "A", "A", "B", "C"}[c.Intn(5)]
+				if withEmpty && !withExpels && c.Chance(2, 3) {
+					fact = "E"
+				}
 				tok = fmt.Sprintf("v:%d:%s", id, fact)
 				var x []int
 				if withExpels && c.Chance(3, 4) {
